@@ -1,5 +1,6 @@
 """Helpers shared by the property modules."""
 from .. import core, gen, model, shards
+import os
 from ..spec import EnumSpec, Field, Variant, GENERICS, TYPES, rs_str, pspec_rust
 
 
@@ -19,6 +20,9 @@ def setup(run, cfgs=("std",)):
     return deps, vmon
 
 
+RELEASE_SAMPLE = int(os.environ.get("VERIF_RELEASE_SAMPLE", "5"))
+
+
 def standard_flow(run, units, deps, vmon, profiles=("debug",), tag="s", nshards=None, extra_head="", timeout=1500, extra_args=(), extern_name="strum"):
     """compile + run + merge; returns samples_by_unit."""
     index = {u.name: u for u in units}
@@ -35,6 +39,23 @@ def standard_flow(run, units, deps, vmon, profiles=("debug",), tag="s", nshards=
             ctr[0] += 1
             return shards.compile_units(run, us, deps, prof, vmon, "%s_w%d" % (tag, ctr[0]), extra_head=extra_head, nshards=nsh, extern_name=extern_name)
         s = shards.run_shards(run, bins, index, args=args, rebuild=rebuild)
+        for k, v in s.items():
+            all_samples.setdefault(k, []).extend(v)
+    # every check also re-runs a sample of its units (every RELEASE_SAMPLE-th) without debug assertions and fully optimised:
+    # behaviour that hides behind debug_assert!/overflow checks differs only there
+    if "release" not in profiles and RELEASE_SAMPLE > 0 and len(units) >= 1:
+        sub = units[::RELEASE_SAMPLE]
+        prof = shards.PROFILES["release"]
+        bins = shards.compile_units(run, sub, deps, prof, vmon, tag + "rel", extra_head=extra_head, nshards=nshards, extern_name=extern_name)
+        run.count("shards/release-sample", len(bins))
+        run.count("units/release-sample", len(sub))
+        args = [str(run.seed), run.tier, "release"] + list(extra_args)
+        ctr2 = [0]
+
+        def rebuild2(us, nsh):
+            ctr2[0] += 1
+            return shards.compile_units(run, us, deps, prof, vmon, "%srel_w%d" % (tag, ctr2[0]), extra_head=extra_head, nshards=nsh, extern_name=extern_name)
+        s = shards.run_shards(run, bins, index, args=args, rebuild=rebuild2)
         for k, v in s.items():
             all_samples.setdefault(k, []).extend(v)
     return all_samples
